@@ -1802,6 +1802,12 @@ class Sim(object):
             self.disk_order.append(n)
             self.disk_layers[n] = set(gl)
             ops = [["xladd", n, gl, self.time()]]
+            if rng.random() < 0.45:
+                # ... and put somewhere else than at the end of layercontents.plist, before the font looks
+                o = list(self.disk_order)
+                rng.shuffle(o)
+                self.disk_order = o
+                ops.append(["xlorder", o, None])
             return ops + self.resync([n])
         if r < 0.97:
             c = [n for n in self.disk_order if n != self.disk_default and n != self.mem_default]
